@@ -34,6 +34,9 @@ var simSelState uint32
 //go:linkname simGoid
 func simGoid() uint64 { return getg().goid }
 
+//go:linkname simInBubble
+func simInBubble() bool { return getg().bubble != nil }
+
 func simSelRand(n uint32) uint32 {
 	if getg().bubble == nil {
 		return cheaprandn(n)
